@@ -92,6 +92,9 @@ def base_cases(shapes=SHAPES, apis=("limit_offset", "offset_limit", "slice", "re
             "api": st.sampled_from(list(apis)),
             # pre_slice: slice(start, start+len) applied to a statement that already carries OFFSET (and maybe LIMIT); start is 0 half of the time
             "sl": st.tuples(st.sampled_from([0, 1, 0, 3, 0, 2]), st.integers(0, 8), st.booleans()).map(list),
+            # history: 0-2 points of the limit/offset/slice derivation chain at which the intermediate statement is compiled on a drawn dialect
+            "cp": st.lists(st.tuples(st.integers(0, 4), st.integers(0, 7)).map(list), max_size=2),
+            "reorder": st.booleans(),
         }
     )
 
@@ -210,6 +213,33 @@ def clause_for(sa, spec, val, name, params, embed=False):
     raise HarnessError(how)
 
 
+def _run_chain(stmt, steps, case):
+    """apply the builder steps one by one; at the drawn points (0-2 per chain) the *intermediate* statement is compiled on a drawn
+    dialect variant first (history: a statement derived from an already compiled ancestor must not inherit anything from that
+    compilation), optionally re-applying the ORDER BY as one more derivation"""
+    from sqlalchemy import exc
+
+    cps = {}
+    for pos, var in case.get("cp", []):
+        cps.setdefault(pos % (len(steps) + 1), []).append(VARIANTS[var % len(VARIANTS)])
+
+    def compile_here(i, st_):
+        for v in cps.get(i, ()):
+            try:
+                st_.compile(dialect=_variant_dialect(v))
+            except exc.SQLAlchemyError:
+                pass  # e.g. MSSQL<2012 OFFSET without ORDER BY yet, PERCENT with OFFSET: documented errors of the intermediate
+
+    compile_here(0, stmt)
+    for i, step in enumerate(steps):
+        stmt = step(stmt)
+        compile_here(i + 1, stmt)
+    if case.get("cp") and case.get("reorder"):
+        ob = tuple(stmt._order_by_clauses)
+        stmt = stmt.order_by(None).order_by(*ob)
+    return stmt
+
+
 def apply_limit(sa, stmt, case, n, params, embed=False):
     """returns (limited statement, offset int, limit int|None)"""
     lim, off = resolve(case["limit"], n), resolve(case["offset"], n)
@@ -225,40 +255,44 @@ def apply_limit(sa, stmt, case, n, params, embed=False):
         if pre_lim is not None:
             b = min(b, pre_lim)
             a = min(a, b)
+        steps = []
         if pre_lim is not None:
-            stmt = stmt.limit(clause_for(sa, case["limit"], pre_lim, "lim_p", params, embed))
+            plc = clause_for(sa, case["limit"], pre_lim, "lim_p", params, embed)
+            steps.append(lambda s_: s_.limit(plc))
         if pre_off is not None:
-            stmt = stmt.offset(clause_for(sa, case["offset"], pre_off, "off_p", params, embed))
-        return stmt.slice(a, b), (pre_off or 0) + a, b - a
+            poc = clause_for(sa, case["offset"], pre_off, "off_p", params, embed)
+            steps.append(lambda s_: s_.offset(poc))
+        steps.append(lambda s_: s_.slice(a, b))
+        return _run_chain(stmt, steps, case), (pre_off or 0) + a, b - a
     if api == "slice":
         # slice(start, stop) with plain ints (documented signature); derive from the drawn offset/limit
         start = off or 0
         stop = start + (lim if lim is not None else 7)
-        return stmt.slice(start, stop), start, stop - start
+        return _run_chain(stmt, [lambda s_: s_.slice(start, stop)], case), start, stop - start
     if api == "slice_rev":
         # (repaired in /repo, generated again in sub live): slice(start, stop) with stop < start is documented to behave like range(): empty
         start = (off or 0) + 2
-        return stmt.slice(start, start - 1), start, 0
+        return _run_chain(stmt, [lambda s_: s_.slice(start, start - 1)], case), start, 0
     lc = None if lim is None else clause_for(sa, case["limit"], lim, "lim_p", params, embed)
     oc = None if off is None else clause_for(sa, case["offset"], off, "off_p", params, embed)
     if api == "fetch":
         if lc is None:
             lc = 3
             lim = 3
-        stmt = stmt.fetch(lc, with_ties=bool(case["fetch_opts"][0]), percent=bool(case["fetch_opts"][1]))
+        steps = [lambda s_: s_.fetch(lc, with_ties=bool(case["fetch_opts"][0]), percent=bool(case["fetch_opts"][1]))]
         if oc is not None:
-            stmt = stmt.offset(oc)
+            steps.append(lambda s_: s_.offset(oc))
     elif api == "reset":
-        stmt = stmt.limit(3).offset(2)
-        stmt = stmt.limit(lc).offset(oc)
+        steps = [lambda s_: s_.limit(3), lambda s_: s_.offset(2), lambda s_: s_.limit(lc), lambda s_: s_.offset(oc)]
     elif api == "offset_limit":
-        stmt = stmt.offset(oc).limit(lc)
+        steps = [lambda s_: s_.offset(oc), lambda s_: s_.limit(lc)]
     else:
+        steps = []
         if lc is not None:
-            stmt = stmt.limit(lc)
+            steps.append(lambda s_: s_.limit(lc))
         if oc is not None:
-            stmt = stmt.offset(oc)
-    return stmt, off or 0, lim
+            steps.append(lambda s_: s_.offset(oc))
+    return _run_chain(stmt, steps, case), off or 0, lim
 
 
 def py_slice(full, off, lim):
@@ -267,6 +301,10 @@ def py_slice(full, off, lim):
 
 def classes_for(case, n, off, lim, flags):
     cl = ["shape=" + case["shape"], "api=" + case["api"]]
+    cps = case.get("cp", [])
+    cl.append(f"ancestor-compiled={len(cps)}")
+    for _, var in cps:
+        cl.append("ancestor-on=" + VARIANTS[var % len(VARIANTS)].split("_")[0])
     if case["api"] == "pre_slice":
         sl = case.get("sl", [0, 3, False])
         has_off = bool(resolve(case["offset"], n))
@@ -590,6 +628,9 @@ def check_emu_mssql(case, ctx):
             if not wrapped:
                 if lstmt._has_row_limiting_clause and not uses_top:
                     raise Violation("C18/emu_mssql/not-wrapped", f"limit={lim} offset={off}: neither TOP nor ROW_NUMBER wrapper", observed=str(lstmt))
+                if uses_top and (off != 0 or lim is None or lstmt._offset_clause is not None):
+                    # TOP n can only express "the first n rows": choosing it for a statement that carries an OFFSET drops the offset
+                    raise Violation("C18/emu_mssql/top-chosen-with-offset", f"limit={lim} offset={off}: the MSSQL compiler chose TOP (no wrapper) for a statement with an OFFSET; ancestors compiled on {[VARIANTS[v % len(VARIANTS)] for _, v in case.get('cp', [])]}", observed=str(lstmt))
                 return
             # harness rewrite 1: the MSSQL compiler renders no limit/offset for the select marked _mssql_visit
             inner_alias = translated.get_final_froms()[0]
